@@ -481,7 +481,7 @@ func runTrace(scn string) (evs []event, nas []naFrame, ops []*apiOp, hostMAC []b
 	return
 }
 
-const inflight = 150 * time.Millisecond // NA written this shortly after StopHunt/Close returned = the known check-then-send window
+const inflight = 1000 * time.Millisecond // NA written this shortly after StopHunt/Close returned = the known check-then-send window
 
 func traceOracle(evs []event, nas []naFrame, ops []*apiOp, hostMAC []byte) (string, string) {
 	hunted := map[int]bool{}
@@ -606,7 +606,7 @@ func traceOracle(evs []event, nas []naFrame, ops []*apiOp, hostMAC []byte) (stri
 			routerAt = o.retAt
 		}
 	}
-	const maxGap = 3300 * time.Millisecond
+	const maxGap = 4500 * time.Millisecond // cycle 2-2.8 s + generous slack for a loaded machine
 	check := func(m int, a, b time.Duration) string {
 		if b > end {
 			b = end
